@@ -110,6 +110,8 @@ def check_model(case, ctx):
         ctx.label("conservative")
     if ndrift >= 2:
         ctx.label("shrinks>=2")
+    if fk.states[0].compressed_rows >= 10:
+        ctx.label("rows>=10")
 
 
 def strat_model(tier):
@@ -122,7 +124,30 @@ def strat_model(tier):
             lambda t: [t[0] + (i // t[1]) / 16 for i in range(t[2])]
         ),
     )
-    return st.fixed_dictionaries({"params": params_strategy(), "xs": streams})
+    @st.composite
+    def long_case(draw):
+        # long streams with few buckets per row: the bucket list grows to 10+ rows (buckets of 1024+ inputs)
+        p = draw(params_strategy())
+        p["max_buckets"] = draw(st.sampled_from([1, 1, 2]))
+        p["new_sample_thresh"] = draw(st.sampled_from([16, 32, 33, 64]))
+        n = draw(st.integers(2500, 5000))
+        nseg = draw(st.integers(1, 3))
+        cuts = sorted(draw(st.lists(st.integers(1500, n - 1), min_size=nseg - 1, max_size=nseg - 1)))
+        levels = [draw(st.integers(-4, 4)) for _ in range(nseg)]
+        noise = draw(st.lists(st.integers(-8, 8), min_size=37, max_size=37))
+        xs = []
+        for i in range(n):
+            k = sum(1 for c in cuts if i >= c)
+            xs.append(levels[k] + noise[(i * 7 + i // 37) % 37] / 16)
+        return {"params": p, "xs": xs}
+
+    base = st.fixed_dictionaries({"params": params_strategy(), "xs": streams})
+
+    @st.composite
+    def mixed(draw):
+        return draw(long_case()) if draw(st.integers(0, 24)) == 0 else draw(base)
+
+    return mixed()
 
 
 # ----------------------------------------------------------------- accuracy
@@ -173,7 +198,7 @@ PROPERTY = {
     "level": "exploration",
     "rule": (
         "adwin_model: Hypothesis streams of 10-600 values on the 1/16 grid (piecewise levels within +-40 or +-1000, ramps, 0/1 "
-        "streams) x delta in {0.002,0.05,0.3,0.9,1} x max_buckets 1..6 x new_sample_thresh 1..33 x window_size_thresh 0..40 x "
+        "streams; one case in 25 is a 2500-5000 sample stream with max_buckets <= 2 so that the bucket list reaches 10+ rows) x delta in {0.002,0.05,0.3,0.9,1} x max_buckets 1..6 x new_sample_thresh 1..33 x window_size_thresh 0..40 x "
         "subwindow_size_thresh 1..8 x both bounds; after every update mean()/variance() are compared with the exact statistics of the "
         "reference window (tolerance 1e-9(1+R), 1e-9(1+R^2), R = largest |input|) and drift / retraining_recs with the reference cut rule; "
         "non-trivial = a shrink that happens when the bucket list has >= 3 rows (after compression into row >= 2). "
